@@ -329,12 +329,12 @@ def check_C12(A: Analysis, tier):
 
 # ---------------------------------------------------------------------------------------
 def _mode_ifs(A):
-    """(function, If) pairs whose test reads self.use_multiprocessing"""
+    """(function, If / IfExp) pairs whose test reads self.use_multiprocessing"""
     out = []
     for f in A.p.funcs.values():
         if f.cls != CLS:
             continue
-        for n in func_nodes(f, ast.If):
+        for n in func_nodes(f, (ast.If, ast.IfExp)):
             if any(self_attr(x) == "use_multiprocessing" for x in ast.walk(n.test)):
                 out.append((f, n))
     return out
@@ -416,7 +416,7 @@ def check_C16(A: Analysis, tier):
     rules = []
     init = A.p.func(f"{CLS}.__init__")
     ifs = _mode_ifs(A)
-    ctor = [(f, n) for f, n in ifs if f is init and _attrs(n.body, "_mp", ast.Store) and _attrs(n.orelse, "_th", ast.Store)]
+    ctor = [(f, n) for f, n in ifs if f is init and isinstance(n, ast.If) and _attrs(n.body, "_mp", ast.Store) and _attrs(n.orelse, "_th", ast.Store)]
     if len(ctor) != 1:
         raise AnalysisError("constructor mode guard (an `if` on self.use_multiprocessing defining the *_mp / *_th "
                             f"primitives) not found exactly once in {CLS}.__init__ (found {len(ctor)})")
@@ -473,6 +473,13 @@ def check_C16(A: Analysis, tier):
         rc.inst(f"{f.qual}:{n.lineno} twin")
         rc.ob()
         pol_mp_first = _eval_guard(n.test, True)
+        if isinstance(n, ast.IfExp):
+            mp_e, th_e = (n.body, n.orelse) if pol_mp_first else (n.orelse, n.body)
+            a2 = re.sub(r"_mp\b", "_th", ast.unparse(mp_e))
+            if a2 != ast.unparse(th_e):
+                rc.fail(f, n, f"the two arms of the mode selection differ beyond the suffix: `{ast.unparse(mp_e)}` vs `{ast.unparse(th_e)}`: "
+                        "one mode consults another claim list / condition than the other", A.p.loc(f, n))
+            continue
         orelse = n.orelse
         if not orelse and n.body and isinstance(n.body[-1], (ast.Return, ast.Raise)):
             # `if mode: return X_mp` followed by `return X_th`: the rest of the block is the else side
@@ -489,7 +496,7 @@ def check_C16(A: Analysis, tier):
         if a2 != b:
             la, lb = a2.splitlines(), b.splitlines()
             diff = next(((x, y) for x, y in zip(la, lb) if x != y), (la[len(lb):][:1] or [""], lb[len(la):][:1] or [""]))
-            rc.fail(f, n.test if False else f"mode twin at `{norm(n.body[0])[:60]}`",
+            rc.fail(f, f"mode twin at `{norm(n.body[0])[:60]}`",
                     f"multiprocessing and threading branches differ: `{str(diff[0])[:80]}` vs `{str(diff[1])[:80]}`",
                     A.p.loc(f, n))
         if _attrs(mp, "_th") or _attrs(th, "_mp"):
